@@ -235,3 +235,18 @@ def run(ctx: Context) -> None:  # noqa: F811
 
     read_recheck(ctx, "C07.R12", "against a server that answers every request no schedule leaves a caller blocked forever: a caller whose complete response was queued by another "
                                  "stream's read must not start a read of its own")
+
+
+
+_core_run_r13 = run
+
+
+def run(ctx: Context) -> None:  # noqa: F811
+    _core_run_r13(ctx)
+    if ctx.rep._borrow is not None:
+        return          # already running as a lender: no chains
+    from . import c12
+
+    with ctx.rep.borrow({"C12.R3": ("C07.R13", "stream-slot permits follow the advertised limit exactly (one permit operation per unit of limit change, in both directions): permits that are "
+                                               "withdrawn twice or never returned leave later requests waiting for a slot on a server that answers everything:")}):
+        c12.run(ctx)
